@@ -70,6 +70,10 @@ def kinds_of(spec):
             k[n["names"][1]] = "k_" + n["names"][1]
         elif kind in ("loop", "recorder"):
             k[n["name"]] = k[n["deps"][0]]
+        elif kind == "recorderm":
+            k[n["names"][0]] = k[n["names"][1]] = k[n["deps"][0]]
+        elif kind == "multi2":
+            k[n["names"][0]] = k[n["names"][1]] = k[n["dep"]]
         elif kind == "overlap":
             k[n["name"]] = k[n["dep"]] if n["mode"] == "rowsum" else "k_" + n["name"]
         elif kind == "overlapm":
@@ -186,6 +190,11 @@ def oracle(spec, config=None):
             out[x] = make_rows(x, t, e, v + 1)
             m = (v % 2) == 0
             out[y] = make_rows(y, t[m], e[m], 2 * v[m])
+        elif kind == "multi2":
+            t, e, v = _tev(out[n["dep"]], n["dep"])
+            x, y = n["names"]
+            out[x] = make_rows(x, t, e, v + 1)
+            out[y] = make_rows(y, t, e, 2 * v)
         elif kind == "loop":
             b, th = n["deps"]
             bt, be, bv = _tev(out[b], b)
@@ -224,7 +233,7 @@ def oracle(spec, config=None):
         elif kind == "exhaust":
             t, e, v = _tev(out[n["dep"]], n["dep"])
             out[n["name"]] = make_rows(n["name"], t, e, np.cumsum(v[::-1])[::-1] if len(v) else v)
-        elif kind == "recorder":
+        elif kind in ("recorder", "recorderm"):
             kinds = kinds_of(spec)
             first = n["deps"][0]
             t, e, _ = _tev(out[first], first)
@@ -232,7 +241,11 @@ def oracle(spec, config=None):
             for d in n["deps"]:
                 if kinds[d] == kinds[first]:
                     tot = tot + out[d][f"v_{d}"]
-            out[n["name"]] = make_rows(n["name"], t, e, tot)
+            if kind == "recorderm":         # two outputs of one kind (mixed save policies)
+                out[n["names"][0]] = make_rows(n["names"][0], t, e, tot)
+                out[n["names"][1]] = make_rows(n["names"][1], t, e, tot + 1)
+            else:
+                out[n["name"]] = make_rows(n["name"], t, e, tot)
         else:
             raise ValueError(kind)
     return out
@@ -559,10 +572,43 @@ class _Recorder(_HarnessMixin, strax.Plugin):
         return make_rows(n["name"], arr["time"], arr["endtime"], tot)
 
 
+class _Multi2(_HarnessMixin, strax.Plugin):
+    """Two outputs of the SAME kind (row aligned): their descendants can be merged again."""
+
+    def compute(self, start, end, **kw):
+        n = self.H_NODE
+        self._h_log(start, end, kw)
+        (arr,) = kw.values()
+        v = arr[f"v_{n['dep']}"]
+        x, y = n["names"]
+        res = {x: make_rows(x, arr["time"], arr["endtime"], v + 1),
+               y: make_rows(y, arr["time"], arr["endtime"], 2 * v)}
+        f = self._h_fault_hit(kw)
+        if f is not None:
+            return byzantine(self, f, res, start, end, None)
+        return res
+
+
+class _RecorderM(_HarnessMixin, strax.Plugin):
+    def compute(self, start, end, **kw):
+        n = self.H_NODE
+        self._h_log(start, end, kw, extra="rows")
+        kinds = self.H_KINDS
+        first = n["deps"][0]
+        arr = kw[kinds[first]]
+        tot = np.zeros(len(arr), dtype=np.int64)
+        for d in n["deps"]:
+            if kinds[d] == kinds[first]:
+                tot = tot + arr[f"v_{d}"]
+        x, y = n["names"]
+        return {x: make_rows(x, arr["time"], arr["endtime"], tot),
+                y: make_rows(y, arr["time"], arr["endtime"], tot + 1)}
+
+
 BASES = {"source": _Source, "rowmap": _RowMap, "filter": _Filter, "merge2": _Merge2, "multi": _Multi,
          "loop": _Loop, "overlap": _Overlap, "overlapm": _OverlapM, "downchunk": _DownChunk,
          "exhaust": _Exhaust, "cut": _Cut, "mergeonly": _MergeOnly,
-         "recorder": _Recorder}
+         "recorder": _Recorder, "recorderm": _RecorderM, "multi2": _Multi2}
 
 BYZANTINE_KINDS = ("wrong_dtype_bare", "wrong_dtype_chunk", "rows_outside", "wrong_data_type",
                    "gap", "overlap", "non_dict")
